@@ -316,15 +316,22 @@ HENV = dict(os.environ, ASAN_OPTIONS="detect_leaks=0:abort_on_error=0:exitcode=7
             QT_QPA_PLATFORM="offscreen")
 
 
-def run_shard(exe, lines, timeout):
+# scenarios in which a later object must be able to land at the address of an earlier, destroyed one (a remembered raw
+# pointer that outlives its object): ASan's quarantine would keep freed blocks out of circulation, so these run without it
+HENV_REUSE = dict(HENV, ASAN_OPTIONS=HENV["ASAN_OPTIONS"] + ":quarantine_size_mb=0:thread_local_quarantine_size_kb=0")
+REUSE_RE = re.compile(r" mw:\d+:\d+:2( |$)")
+
+
+def run_shard(exe, lines, timeout, env=None):
     """run scenario lines through the harness (restarting after a crash) and the driver"""
+    env = env or HENV
     pending = list(lines)
     hout = []
     crashes = []
     while pending:
         try:
             p = subprocess.run([exe], input="\n".join(pending) + "\n", capture_output=True, text=True,
-                               env=HENV, timeout=timeout, cwd=os.path.join(ROOT, ".work"))
+                               env=env, timeout=timeout, cwd=os.path.join(ROOT, ".work"))
             out, err, rc, hung = p.stdout, p.stderr, p.returncode, False
         except subprocess.TimeoutExpired as e:
             out = (e.stdout or b"").decode() if isinstance(e.stdout, bytes) else (e.stdout or "")
@@ -354,11 +361,16 @@ def run_shard(exe, lines, timeout):
 
 def run_scenarios(exe, lines, timeout=600):
     from concurrent.futures import ThreadPoolExecutor
+    reuse = [l for l in lines if REUSE_RE.search(l)]
+    lines = [l for l in lines if not REUSE_RE.search(l)]
     n = max(1, min(NCPU, len(lines) // 20 + 1))
-    shards = [lines[i::n] for i in range(n)]
+    shards = [(lines[i::n], HENV) for i in range(n)]
+    if reuse:
+        m = max(1, min(4, len(reuse) // 20 + 1))
+        shards += [(reuse[i::m], HENV_REUSE) for i in range(m)]
     res, crashes, raw = [], [], []
-    with ThreadPoolExecutor(max_workers=n) as ex:
-        for r, c, h in ex.map(lambda s: run_shard(exe, s, timeout), shards):
+    with ThreadPoolExecutor(max_workers=min(NCPU, len(shards))) as ex:
+        for r, c, h in ex.map(lambda s: run_shard(exe, s[0], timeout, s[1]), shards):
             res += r
             crashes += c
             raw += h
